@@ -27,6 +27,16 @@ class TraceVerdicts:
     runs: int = 0
 
 
+def _clean(x, top=True):
+    """what TLC gets to see: no harness-side metadata, no JSON nulls (Json.tla cannot read them)"""
+    if isinstance(x, dict):
+        return {k: _clean(v, False) for k, v in x.items() if v is not None and not (top and k == "meta")
+                and k not in ("record", "acts")}
+    if isinstance(x, (list, tuple)):
+        return [_clean(v, False) for v in x]
+    return x
+
+
 def _one(spec: str, cfgfile, traces: list, idx: list, workdir, tag: str, timeout: int, env_extra: dict | None) -> TraceVerdicts:
     v = TraceVerdicts()
     remaining = list(range(len(traces)))
@@ -36,7 +46,7 @@ def _one(spec: str, cfgfile, traces: list, idx: list, workdir, tag: str, timeout
         if attempt > 25:
             raise Machinery(f"{spec}: too many invariant violations in one batch")
         f = workdir / f"{tag}_{attempt}.json"
-        f.write_text(json.dumps([traces[i] for i in remaining]))
+        f.write_text(json.dumps([_clean(traces[i]) for i in remaining]))
         env = {"TRACE_FILE": str(f)}
         if env_extra:
             env.update(env_extra)
